@@ -17,7 +17,7 @@ if ! lake build LdarModel >/dev/null 2>&1; then
   done
 fi
 # layer-3 ties: generated from the source; a failure is reported by the checks that use them
-for m in EmissionTie EmissionOnSource EmissionRecord CrewTie PlannerTie FollowUpTie; do
+for m in EmissionTie EmissionOnSource EmissionRecord CrewTie PlannerTie FollowUpTie EstimateTie; do
   lake build "LdarModel.Props.$m" >/dev/null 2>&1 || echo "setup: LdarModel.Props.$m did not build (the checks that use it will report it)"
 done
 exes=$(grep -E '^name = "drv_' lakefile.toml | sed 's/name = "\(.*\)"/\1/')
